@@ -76,10 +76,11 @@ Theorem C08_mul_dadda_exact : forall fresh xs ys be s rs s',
 Proof. exact add_mul_dadda_final. Qed.
 
 (* FULL STATEMENT (Wallace): as below with  length rs = mul_len (length xs) (length ys).
-   Proved: the product for all widths and length rs <= mul_len; equality is computed for every width
-   pair <= 6.  The model returns Err where the code would compact two rows whose gates are not
-   contiguous (Model/ArithMul.v, wallace_final); that it returns Ok is computed up to 6 x 6 and checked
-   against the implementation on every run. *)
+   Proved (for the code repaired by fixes/D27.patch, see Model/ArithMul.v): the product for all widths and
+   length rs <= mul_len; that the final shifted adder returns at least n + m bits, so that equality holds,
+   is computed for every width pair <= 6 and checked by the direct oracle on every run.
+   On the pinned code the product is WRONG for n = 2, m >= 11 (e.g. 3 * 704 = 1088): empty cells between
+   gates of the last two rows were skipped. *)
 Theorem C08_mul_wallace_partial : forall fresh xs ys be s rs s',
   run fresh (add_mul_wallace xs ys be) s = Ok (rs, s') ->
   ext (bc s) (bc s') /\ inputs (bc s') = inputs (bc s) /\ outputs (bc s') = outputs (bc s) /\
